@@ -1214,7 +1214,20 @@ func rC20SortKeys(w *World, r *Report) {
 					}
 				}
 			}
-			ru.Check(good, "sort.Slice/"+short(fn), w.IPos(c), "unique keys (option.Sort: by Name) or a total order on whole elements", "an unstable sort whose key uniqueness is not established")
+			// records keyed by the keys of one map (one record appended per iteration of a range over the map, its
+			// compared field holding the map key): the keys are unique by construction
+			if !good {
+				if mc, ok := c.Common().Args[1].(*ssa.MakeClosure); ok {
+					if less, _ := mc.Fn.(*ssa.Function); less != nil {
+						arg := c.Common().Args[0]
+						if mi, ok := arg.(*ssa.MakeInterface); ok {
+							arg = mi.X
+						}
+						good = sortedByMapKey(arg, mc, less)
+					}
+				}
+			}
+			ru.Check(good, "sort.Slice/"+short(fn), w.IPos(c), "unique keys (option.Sort: by Name; records keyed by the keys of one map) or a total order on whole elements", "an unstable sort whose key uniqueness is not established")
 		}
 	}
 	if n == 0 {
@@ -1255,6 +1268,161 @@ func rC20SortKeys(w *World, r *Report) {
 }
 
 // isFreeVarLoadOrSelf: v is a captured variable (or a load of one): the slice the less function closes over.
+// sortedByMapKey: arg is the content of a local slice variable of records; less compares one field F of two of its
+// elements with < and nothing else; every store into the variable is an empty slice or append(<itself>, one record)
+// whose F is the key of the map ranged over.
+func sortedByMapKey(arg ssa.Value, mc *ssa.MakeClosure, less *ssa.Function) bool {
+	ld, ok := arg.(*ssa.UnOp)
+	if !ok || ld.Op != token.MUL {
+		return false
+	}
+	al, ok := ld.X.(*ssa.Alloc)
+	if !ok || len(less.Params) != 2 || len(mc.Bindings) != 1 || mc.Bindings[0] != ssa.Value(al) {
+		return false
+	}
+	fieldOfElem := func(v ssa.Value, idx ssa.Value) int {
+		u, ok := v.(*ssa.UnOp)
+		if !ok || u.Op != token.MUL {
+			return -1
+		}
+		fa, ok := u.X.(*ssa.FieldAddr)
+		if !ok {
+			return -1
+		}
+		ia, ok := fa.X.(*ssa.IndexAddr)
+		if !ok || ia.Index != idx || !isFreeVarLoadOrSelf(ia.X) {
+			return -1
+		}
+		return fa.Field
+	}
+	field, cmps := -1, 0
+	eachInstr(less, func(in ssa.Instruction) {
+		bo, ok := in.(*ssa.BinOp)
+		if !ok {
+			return
+		}
+		cmps++
+		f1, f2 := fieldOfElem(bo.X, less.Params[0]), fieldOfElem(bo.Y, less.Params[1])
+		if bo.Op == token.LSS && f1 >= 0 && f1 == f2 {
+			field = f1
+		}
+	})
+	if field < 0 || cmps != 1 || al.Referrers() == nil {
+		return false
+	}
+	isMapKey := func(v ssa.Value) bool {
+		ex, ok := v.(*ssa.Extract)
+		if !ok || ex.Index != 1 {
+			return false
+		}
+		nx, ok := ex.Tuple.(*ssa.Next)
+		if !ok || nx.IsString {
+			return false
+		}
+		rg, ok := nx.Iter.(*ssa.Range)
+		if !ok {
+			return false
+		}
+		_, isMap := rg.X.Type().Underlying().(*types.Map)
+		return isMap
+	}
+	// the value stored into field `field` of the record behind addr (a local record, or an element slot)
+	var keyStored func(addr ssa.Value, d int) bool
+	keyStored = func(addr ssa.Value, d int) bool {
+		if d > 3 || addr.Referrers() == nil {
+			return false
+		}
+		found := false
+		for _, ref := range *addr.Referrers() {
+			switch x := ref.(type) {
+			case *ssa.FieldAddr:
+				if x.Field != field || x.Referrers() == nil {
+					continue
+				}
+				for _, r2 := range *x.Referrers() {
+					if st, ok := r2.(*ssa.Store); ok && st.Addr == ssa.Value(x) {
+						if !isMapKey(st.Val) {
+							return false
+						}
+						found = true
+					}
+				}
+			case *ssa.Store:
+				if x.Addr != addr {
+					continue
+				}
+				// a whole record copied in: look at where it was built
+				if l2, ok := x.Val.(*ssa.UnOp); ok && l2.Op == token.MUL {
+					if !keyStored(l2.X, d+1) {
+						return false
+					}
+					found = true
+				} else {
+					return false
+				}
+			}
+		}
+		return found
+	}
+	appends := 0
+	for _, ref := range *al.Referrers() {
+		st, ok := ref.(*ssa.Store)
+		if !ok || st.Addr != ssa.Value(al) {
+			continue
+		}
+		switch v := st.Val.(type) {
+		case *ssa.MakeSlice:
+			if k, ok := constInt(v.Len); !ok || k != 0 {
+				return false
+			}
+		case *ssa.Const:
+		case *ssa.Slice: // an empty composite literal
+			a2, ok := v.X.(*ssa.Alloc)
+			if !ok {
+				return false
+			}
+			if arr, ok := derefType(a2.Type()).Underlying().(*types.Array); !ok || arr.Len() != 0 {
+				return false
+			}
+		case *ssa.Call:
+			if calleeName(v) != "builtin:append" || len(v.Call.Args) != 2 {
+				return false
+			}
+			base, ok := v.Call.Args[0].(*ssa.UnOp)
+			if !ok || base.X != ssa.Value(al) {
+				return false
+			}
+			sl, ok := v.Call.Args[1].(*ssa.Slice)
+			if !ok {
+				return false
+			}
+			arrA, ok := sl.X.(*ssa.Alloc)
+			if !ok || arrA.Referrers() == nil {
+				return false
+			}
+			if arr, ok := derefType(arrA.Type()).Underlying().(*types.Array); !ok || arr.Len() != 1 {
+				return false
+			}
+			okSlot := false
+			for _, r2 := range *arrA.Referrers() {
+				if ia, ok := r2.(*ssa.IndexAddr); ok {
+					if !keyStored(ia, 0) {
+						return false
+					}
+					okSlot = true
+				}
+			}
+			if !okSlot {
+				return false
+			}
+			appends++
+		default:
+			return false
+		}
+	}
+	return appends > 0
+}
+
 func isFreeVarLoadOrSelf(v ssa.Value) bool {
 	if _, ok := v.(*ssa.FreeVar); ok {
 		return true
